@@ -1111,3 +1111,166 @@ Lemma disconnect_once s j : s_hs s = true ->
 Proof.
   intros H. split; [exact (disconnect_count s j H)|]. intros pre post E. exact (disconnect_after_connects s j pre post H E).
 Qed.
+
+(** * a connection that survives a sibling *)
+
+Lemma sibling_independent s b :
+  run (set_sibling b s) = run s /\ model_C15 (set_sibling b s) = model_C15 s /\ model_mid (set_sibling b s) = model_mid s.
+Proof. destruct s. repeat split; reflexivity. Qed.
+
+Lemma hookpart_forall (P : ev -> bool) s :
+  (forall i, P (EConnect i) = true) -> P ERegInsert = true -> (forall k, P (ERegAlias k) = true) ->
+  (forall m, P (EQueue m) = true) -> forallb P (hookpart s) = true.
+Proof.
+  intros H1 H2 H3 H4. unfold hookpart. rewrite forallb_flat_map. apply forallb_forall. intros c _.
+  destruct c as [i h|]; cbn [cstep_evs forallb]; [|rewrite H2; reflexivity].
+  rewrite H1. cbn [andb]. destruct h; cbn [hact_evs forallb]; try reflexivity.
+  - apply forallb_map_const. intros q. apply H4.
+  - rewrite H3. reflexivity.
+Qed.
+
+Lemma pings_forall (P : ev -> bool) n :
+  (forall id, P (ERequest id) = true) -> (forall m, P (EQueue m) = true) -> forallb P (pings n) = true.
+Proof.
+  intros H1 H2. unfold pings. rewrite forallb_flat_map. apply forallb_forall. intros x _.
+  cbn [forallb]. rewrite H1, H2. reflexivity.
+Qed.
+
+Lemma before_arrive_app a b :
+  forallb (fun e => negb (is_arrive e)) a = true -> before_arrive (a ++ b) = a ++ before_arrive b.
+Proof.
+  induction a as [|e a IH]; intros H; [reflexivity|]. cbn [forallb] in H. apply andb_true_iff in H. destruct H as [H1 H2].
+  cbn [app before_arrive]. destruct (is_arrive e); [discriminate H1|]. rewrite (IH H2). reflexivity.
+Qed.
+
+(** the events of a surviving connection up to the moment its own cause is raised *)
+Definition mid_tail (s : scenario) : list ev :=
+  EReaderStart :: pings (s_reqs s) ++ (if is_POff (s_phase s) then [ERequest (s_reqs s); EOffStart] else []).
+Definition mid_prefix (s : scenario) : list ev := [EHandshake true; EGuardBuilt] ++ hookpart s ++ mid_tail s.
+
+Lemma stag_parts s : c15_stag_wf s = true ->
+  c15_wf s = true /\ s_hs s = true /\ existsb is_panic (s_pre s ++ s_post s ++ s_xh s) = false /\
+  (s_phase s = PIdle \/ s_phase s = POffReader).
+Proof.
+  unfold c15_stag_wf. intros H. rewrite !andb_true_iff in H. destruct H as [[[H1 H2] H3] H4].
+  split; [exact H1|]. split; [exact H2|]. split.
+  - destruct (existsb is_panic (s_pre s ++ s_post s ++ s_xh s)); [discriminate H3|reflexivity].
+  - destruct (s_phase s); try discriminate H4; [left|right]; reflexivity.
+Qed.
+
+Lemma stag_nopanic s : existsb is_panic (s_pre s ++ s_post s ++ s_xh s) = false ->
+  pre_panics s = false /\ existsb is_panic (s_post s ++ eff_xh s) = false /\ panic_idx (script s) = None.
+Proof.
+  intros H. rewrite !existsb_app' in H. apply orb_false_iff in H. destruct H as [H1 H2].
+  apply orb_false_iff in H2. destruct H2 as [H2 H3].
+  assert (E : existsb is_panic (s_post s ++ eff_xh s) = false).
+  { rewrite existsb_app', H2. unfold eff_xh. destruct (s_ctx s); [exact H3|reflexivity]. }
+  split; [exact H1|]. split; [exact E|].
+  apply panic_idx_none. unfold script. rewrite !existsb_app', !panic_number, H1, E.
+  destruct (s_reg s); reflexivity.
+Qed.
+
+Lemma before_arrive_run s : c15_stag_wf s = true ->
+  before_arrive (run s) = mid_prefix s /\ exists rest, run s = mid_prefix s ++ EArrive (s_cause s) :: rest.
+Proof.
+  intros W. destruct (stag_parts s W) as [_ [H [NP PH]]]. destruct (stag_nopanic s NP) as [_ [_ PI]].
+  assert (A : arrive_part s = []) by (unfold arrive_part; destruct PH as [E|E]; rewrite E; reflexivity).
+  assert (B : exists rest, body s = mid_tail s ++ EArrive (s_cause s) :: rest).
+  { unfold body, mid_tail. destruct PH as [E|E]; rewrite E; cbn [is_POff app].
+    - rewrite app_nil_r, <- !app_assoc. cbn [app]. eexists. reflexivity.
+    - exists ((if token_cause (s_cause s) then [EOffSeesCancel] else []) ++ [EExit (XCause (s_cause s))]).
+      rewrite <- !app_assoc. reflexivity. }
+  destruct B as [rest B].
+  assert (R : run s = mid_prefix s ++ EArrive (s_cause s) :: rest ++ drop_evs s).
+  { rewrite (run_ok s H). unfold pre_part, exit_part, mid_prefix. rewrite A, PI, B. cbn [app]. rewrite <- !app_assoc. reflexivity. }
+  split; [|eexists; exact R].
+  rewrite R. rewrite before_arrive_app; [cbn [before_arrive is_arrive]; apply app_nil_r|].
+  unfold mid_prefix, mid_tail. rewrite !forallb_app. cbn [forallb is_arrive negb andb].
+  rewrite (hookpart_forall (fun e => negb (is_arrive e)) s) by reflexivity.
+  rewrite forallb_app, (pings_forall (fun e => negb (is_arrive e))) by reflexivity.
+  destruct (is_POff (s_phase s)); reflexivity.
+Qed.
+
+Lemma mid_prefix_head s : c15_stag_wf s = true -> forall e, In e (mid_prefix s) -> In e (head_part s).
+Proof.
+  intros W e He. destruct (stag_parts s W) as [_ [_ [NP PH]]]. destruct (stag_nopanic s NP) as [_ [_ PI]].
+  unfold head_part, pre_part, exit_part. rewrite PI. unfold mid_prefix in He. cbn [app] in He.
+  destruct He as [He|[He|He]]; [left; exact He|right; left; exact He|]. right. right.
+  apply in_or_app. right. apply in_app_or in He. apply in_or_app. destruct He as [He|He]; [left; exact He|right].
+  unfold mid_tail in He. unfold body. apply in_or_app. left.
+  destruct PH as [E|E]; rewrite E in *; cbn [is_POff] in He.
+  - rewrite app_nil_r in He. destruct He as [He|He]; [left; exact He|right]. apply in_or_app. left. exact He.
+  - destruct He as [He|He]; [left; exact He|right]. apply in_app_or in He. apply in_or_app.
+    destruct He as [He|He]; [left; exact He|right]. apply in_or_app. left.
+    destruct He as [He|[He|[]]]; [left; exact He|right; left; exact He].
+Qed.
+
+(** nothing of the guard's drop, and no cancellation, has happened to a survivor *)
+Lemma survivor_untouched s : c15_stag_wf s = true ->
+  (exists rest, run s = before_arrive (run s) ++ EArrive (s_cause s) :: rest) /\
+  (forall e, In e (before_arrive (run s)) -> guard_side e = false /\ is_offsees e = false).
+Proof.
+  intros W. destruct (before_arrive_run s W) as [E [rest R]]. rewrite E. split; [exists rest; exact R|].
+  intros e He. split; [exact (head_part_In s e (mid_prefix_head s W e He))|].
+  unfold mid_prefix in He. cbn [app] in He. destruct He as [He|[He|He]]; [subst e; reflexivity|subst e; reflexivity|].
+  apply in_app_or in He. destruct He as [He|He].
+  - pose proof (forallb_In _ _ _ (hookpart_forall (fun e => negb (is_offsees e)) s (fun _ => eq_refl) eq_refl (fun _ => eq_refl) (fun _ => eq_refl)) He) as X; cbv beta in X.
+    destruct (is_offsees e); [discriminate X|reflexivity].
+  - unfold mid_tail in He. destruct He as [He|He]; [subst e; reflexivity|]. apply in_app_or in He. destruct He as [He|He].
+    + pose proof (forallb_In _ _ _ (pings_forall (fun e => negb (is_offsees e)) (s_reqs s) (fun _ => eq_refl) (fun _ => eq_refl)) He) as X; cbv beta in X.
+      destruct (is_offsees e); [discriminate X|reflexivity].
+    + destruct (is_POff (s_phase s)); [|destruct He]. destruct He as [He|[He|[]]]; subst e; reflexivity.
+Qed.
+
+Lemma existsb_none {A} (P : A -> bool) l : (forall x, In x l -> P x = false) -> existsb P l = false.
+Proof.
+  induction l as [|x l IH]; intros H; [reflexivity|]. cbn [existsb].
+  rewrite (H x (or_introl eq_refl)), IH; [reflexivity|]. intros y Hy. apply H. right. exact Hy.
+Qed.
+
+Lemma rv_mid_prefix s : c15_wf s = true -> rv_after rv0 (mid_prefix s) = vh s.
+Proof.
+  intros W. unfold mid_prefix. rewrite !rv_after_app. change (rv_after rv0 [EHandshake true; EGuardBuilt]) with rv0.
+  destruct (proj_hookpart s W) as [_ V]. rewrite V.
+  apply (proj_inert (mid_tail s) (vh s)). unfold mid_tail. cbn [forallb inert andb]. rewrite forallb_app, inert_pings.
+  destruct (is_POff (s_phase s)); reflexivity.
+Qed.
+
+Lemma ok_model_mid s : c15_stag_wf s = true -> ok_mid s (model_mid s) = true.
+Proof.
+  intros W. destruct (stag_parts s W) as [W0 [H [NP PH]]]. destruct (stag_nopanic s NP) as [PP [PR PI]].
+  destruct (survivor_untouched s W) as [_ U]. destruct (before_arrive_run s W) as [E _].
+  unfold model_mid, observe_mid, ok_mid. cbn [m_disc m_present m_aliases m_seen m_alive m_trigger m_new].
+  rewrite (filter_none is_disc_ev (before_arrive (run s))).
+  2:{ intros e He. destruct (U e He) as [G _]. unfold guard_side in G. destruct e; try reflexivity. discriminate G. }
+  rewrite (existsb_none is_cancel_ev (before_arrive (run s))).
+  2:{ intros e He. destruct (U e He) as [G _]. unfold guard_side in G. destruct e; try reflexivity. discriminate G. }
+  rewrite (existsb_none is_offsees (before_arrive (run s))) by (intros e He; exact (proj2 (U e He))).
+  rewrite E, (rv_mid_prefix s W0).
+  assert (IN : inserted s (length (oh s)) = s_reg s).
+  { unfold inserted. fold (pre_panics s). rewrite PP. unfold oh. rewrite app_length.
+    destruct (Nat.leb_spec (length (s_pre s)) (length (s_pre s) + length (s_post s ++ eff_xh s))); [|lia].
+    cbn [negb]. rewrite !andb_true_r. reflexivity. }
+  assert (RG : regran s = s_reg s) by (unfold regran; rewrite PP, andb_true_r; reflexivity).
+  assert (RR : ran_rest s = s_post s ++ eff_xh s) by (unfold ran_rest; rewrite PP; exact (cut_nopanic _ PR)).
+  rewrite IN. unfold vh. rewrite RG. cbn [rv_present rv_keys length N.of_nat N.eqb]. rewrite Bool.eqb_reflx.
+  assert (AL : N.of_nat (length (if s_reg s then alias_keys (ran_rest s) else [])) = (if s_reg s then nalias (oh s) else 0)).
+  { destruct (s_reg s); [|reflexivity]. destruct (wf_parts s W0) as [NA _].
+    unfold nalias, oh. rewrite RR, filter_app, (filter_alias_none _ NA), length_alias_keys. reflexivity. }
+  rewrite AL, !N.eqb_refl.
+  assert (EX : existsb is_exit_ev (mid_prefix s) = false).
+  { unfold mid_prefix, mid_tail. rewrite !existsb_app'. cbn [existsb is_exit_ev orb].
+    assert (X1 : existsb is_exit_ev (hookpart s) = false).
+    { apply existsb_none. intros e He.
+      pose proof (forallb_In _ _ _ (hookpart_forall (fun e => negb (is_exit_ev e)) s (fun _ => eq_refl) eq_refl (fun _ => eq_refl) (fun _ => eq_refl)) He) as X; cbv beta in X.
+      destruct (is_exit_ev e); [discriminate X|reflexivity]. }
+    assert (X2 : existsb is_exit_ev (pings (s_reqs s)) = false).
+    { apply existsb_none. intros e He.
+      pose proof (forallb_In _ _ _ (pings_forall (fun e => negb (is_exit_ev e)) (s_reqs s) (fun _ => eq_refl) (fun _ => eq_refl)) He) as X; cbv beta in X.
+      destruct (is_exit_ev e); [discriminate X|reflexivity]. }
+    rewrite ?existsb_app', X1, X2. destruct (is_POff (s_phase s)); reflexivity. }
+  assert (RD : existsb is_reader_ev (mid_prefix s) = true).
+  { unfold mid_prefix, mid_tail. rewrite !existsb_app'. cbn [existsb is_reader_ev orb]. rewrite orb_true_r. reflexivity. }
+  rewrite EX, RD. cbn [negb andb].
+  destruct (existsb is_offstart (mid_prefix s)); reflexivity.
+Qed.
